@@ -434,6 +434,7 @@ pub fn run(cfg: &Cfg) -> i32 {
             rep.emit(w);
         }));
     }
+    crate::fzrun::add_jobs(cfg, "C17", &mut jobs, &mut names);
     let outs = run_jobs(&mut jobs, cfg.par, cfg.t(600, 7200));
     drop(jobs);
     let mut total = Report::default();
@@ -443,7 +444,7 @@ pub fn run(cfg: &Cfg) -> i32 {
         &total,
         Meta {
             level: "exploration",
-            rule: "RawTable<u32, u32|usize> driven through its public API (find_or_find_insert_slot + insert_in_slot_unchecked, remove_entry, get/get_mut/find, retain with drop callback, drain fully / dropped half-way, clear, reserve, clone-and-continue, iter/iter_mut/into_iter, len) with adversarial hash functions (all keys colliding, hashes differing only above the mask, cluster wrapping around the slot array, identity, multiplicative). Exhaustive: all sequences of length 5 (thorough: 6) over a 16-operation alphabet on a 4-key universe, for each hash function; random: proptest sequences of 30..300 operations over 24- and 200-key universes. Oracle: BTreeSet reference compared after every operation (every universe key looked up, len, iteration exactly once). Termination is decided by a predicate read through the oxidd_verif census hook: there must always be a FREE slot, and the table's free counter must not exceed the real number of FREE slots (otherwise growth is skipped and probing for an absent key cannot stop); a lookup is never issued in a state where it would not terminate. Non-trivial = sequence in which all keys are looked up after a drain/clear/retain that happened while tombstones existed.",
+            rule: "RawTable<u32, u32|usize> driven through its public API (find_or_find_insert_slot + insert_in_slot_unchecked, remove_entry, get/get_mut/find, retain with drop callback, drain fully / dropped half-way, clear, reserve, clone-and-continue, iter/iter_mut/into_iter, len) with adversarial hash functions (all keys colliding, hashes differing only above the mask, cluster wrapping around the slot array, identity, multiplicative). Exhaustive: all sequences of length 5 (thorough: 6) over a 16-operation alphabet on a 4-key universe, for each hash function; random: proptest sequences of 30..300 operations over 24- and 200-key universes. Oracle: BTreeSet reference compared after every operation (every universe key looked up, len, iteration exactly once). Termination is decided by a predicate read through the oxidd_verif census hook: there must always be a FREE slot, and the table's free counter must not exceed the real number of FREE slots (otherwise growth is skipped and probing for an absent key cannot stop); a lookup is never issued in a state where it would not terminate. Non-trivial = sequence in which all keys are looked up after a drain/clear/retain that happened while tombstones existed. COVERAGE-GUIDED FUZZING: the libFuzzer targets of this property (harness/fuzz, entry points and decoders in fz.rs, the same oracle as above, built with AddressSanitizer, debug assertions and overflow checks) - quick tier: every committed seed and regression input is replayed through the in-process entry point; thorough tier: 3 libFuzzer campaigns per target with -runs=N -seed=f(VERIF_SEED) on fresh corpora initialised from the seeds (evaluations = executions, non-trivial = inputs kept for new coverage).",
             assumptions: vec!["the free-counter invariant (counter <= real FREE slots) is the exact reason linear probing terminates in this implementation; it is read through a cfg(oxidd_verif) hook".into()],
             extra: json!({}),
         },
